@@ -12,7 +12,17 @@ c = vlib.Context("SETUP")
 c.ensure_configured()
 c.build_libs(["corecel", "geocel", "orange", "celeritas", "testcel_harness", "testcel_core",
               "testcel_geocel", "testcel_orange", "testcel_celeritas"])
-c.coq_makefile()
+PY
+# regenerate the translator-produced model fragments (coq/Generated/*.v) so that the full make covers them too;
+# each check regenerates them again from /repo's working tree on every run
+for t in xorwow state_fields shared_mutable json_keys; do
+  python3 translators/$t.py > _work/translator_$t.log 2>&1 || echo "translator $t reported a problem (its check will report)"
+done
+python3 - <<'PY'
+import sys
+sys.path.insert(0, "tools")
+import vlib
+vlib.Context("SETUP").coq_makefile()
 PY
 (cd coq && timeout 3000 make -k -j16 > ../_work/coq_setup.log 2>&1) || { tail -50 _work/coq_setup.log; echo "coq build had failures (individual checks will report)"; }
 echo setup done
